@@ -8,15 +8,19 @@
   WHAT IS PROVED, for an ARBITRARY hash function `H` (Keccak is never unfolded by the kernel):
     * `model_eq_spec`         the modelled Go computation equals the contract-side closed formula `Spec.digestV`
                               for every batch (0..n proposals, any data), every chain id in [0, 2^256), every 20-byte address;
-    * `digest_binding` (+ corollaries `digest_changes`, `swap_changes_digest`) two well-formed (chain id, address, ordered batch)
-                              triples with the same digest are equal — or the proof hands you a collision of `H`;
+    * `digest_binding` (+ corollaries `digest_changes`, `swap_changes_digest`) a genuine reduction: two well-formed (chain id,
+                              address, ordered batch) triples with the same digest are equal — or two DIFFERENT byte strings with
+                              the same hash are EXHIBITED among the explicitly listed pre-images of the two computations
+                              (`hashedBy`). (The earlier form `… ∨ ∃ a b, a ≠ b ∧ H a = H b` was vacuous: any function from byte
+                              strings to 32 bytes has such a pair.) An `example` takes the collision branch for a weak hash;
     * `keccak_binding`        the same instantiated with the executable Lean Keccak-256 (its 32-byte output length is proved);
     * `map_order_irrelevant`  the per-proposal hash does not depend on the iteration order of the Go map;
     * `negative_chain_err`, `missing_version_err`, `bad_address_err`, `evm_chain_wrap_point`   excluded points: what happens there;
-    * `watch_submits_hashed`  the watch loop submits the batch that was hashed, whatever the polls before the signature say;
-    * `sig_layout`, `sig_ok`  the submitted signature is LeftPad32(r) ‖ LeftPad32(s) ‖ (v+27), 65 bytes, for every r, s of at most
+    * `watch_submits_hashed`  DEFINITIONAL (unfolds `watch`): the modelled watch loop submits the batch it was given; the content is in the
+                              correspondence ops `watchsig` / `execwatch` / `execsign`, which run the real loop and the real Execute;
+    * `sig_layout` (DEFINITIONAL: unfolds `sigBytes`), `sig_ok`, `sig_ok_nat`  the submitted signature is LeftPad32(r) ‖ LeftPad32(s) ‖ (v+27), 65 bytes, for every r, s of at most
                               32 bytes (short ones included) and every recovery byte; v+27 ∈ {27,28} iff v ∈ {0,1}.
-  ASSUMED / NOT PROVED: collision resistance of Keccak-256 (the reduction ends in `Collision H`); that the Lean Keccak-256
+  ASSUMED / NOT PROVED: collision resistance of Keccak-256 (the reduction ends in `ExCollision H (hashedBy …) (hashedBy …)`); that the Lean Keccak-256
   equals go-ethereum's (checked on every run by the correspondence op `keccak`, lengths 0..300 and random long inputs);
   the transcription of Bridge.sol's type strings / name / version into `Spec`; `hexutil.Encode`∘`Decode` and
   `Address.Hex`∘`HexToAddress` round trips (modelled as identities, exercised by the correspondence); that ECDSA recovery of
@@ -92,28 +96,47 @@ theorem flatten_inj32 : ∀ (xs ys : List Bytes),
 theorem lt256_of_lt {n k : Nat} (h : n < 2 ^ k) (hk : k ≤ 256) : n < 2 ^ 256 :=
   Nat.lt_of_lt_of_le h (Nat.pow_le_pow_right (by decide) hk)
 
-/-- the per-proposal hash is injective on well-formed proposals when `H` is -/
-theorem hp_inj (H : Hash) (hinj : ∀ a b, H a = H b → a = b) (p q : Prop') (hp' : p.WF) (hq : q.WF)
-    (h : Spec.hp H p = Spec.hp H q) : p = q := by
-  unfold Spec.hp at h
-  have h0 := hinj _ _ h
-  simp only [List.append_assoc] at h0
-  obtain ⟨_, h1⟩ := List.append_inj h0 rfl
-  have lo := pad32_length p.origin (lt256_of_lt hp'.1 (by decide))
-  have lo' := pad32_length q.origin (lt256_of_lt hq.1 (by decide))
-  have ln := pad32_length p.nonce (lt256_of_lt hp'.2.1 (by decide))
-  have ln' := pad32_length q.nonce (lt256_of_lt hq.2.1 (by decide))
-  obtain ⟨ho, h2⟩ := List.append_inj h1 (by rw [lo, lo'])
-  obtain ⟨hn, h3⟩ := List.append_inj h2 (by rw [ln, ln'])
-  obtain ⟨hr, h4⟩ := List.append_inj h3 (by rw [hp'.2.2, hq.2.2])
-  have hd := hinj _ _ h4
-  have ho' := pad32_inj _ _ ho
-  have hn' := pad32_inj _ _ hn
-  cases p; cases q; simp_all
+/-- the hashes of the specification are `H` of the pre-images listed by `hashedBy` (definitional) -/
+theorem hp_eq (H : Hash) (p : Prop') : Spec.hp H p = H (hpPre H p) := rfl
+theorem domSep_eq (H : Hash) (v c a) : Spec.domSep H v c a = H (domPre H v c a) := rfl
+theorem structHash_eq (H : Hash) (ps) : Spec.structHash H ps = H (structPre H ps) := rfl
+theorem digestV_eq (H : Hash) (v c a ps) : Spec.digestV H v c a ps = H (topPre H v c a ps) := rfl
 
-theorem map_hp_inj (H : Hash) (hinj : ∀ a b, H a = H b → a = b) :
-    ∀ (ps qs : List Prop'), (∀ p ∈ ps, p.WF) → (∀ q ∈ qs, q.WF) →
-      ps.map (Spec.hp H) = qs.map (Spec.hp H) → ps = qs := by
+theorem exc_mono {H : Hash} {X X' Y Y' : List Bytes} (hx : ∀ a ∈ X, a ∈ X') (hy : ∀ b ∈ Y, b ∈ Y')
+    (h : ExCollision H X Y) : ExCollision H X' Y' := by
+  obtain ⟨a, ha, b, hb, hne, he⟩ := h
+  exact ⟨a, hx a ha, b, hy b hb, hne, he⟩
+
+/-- one hash application: equal outputs come from equal pre-images, or the two pre-images are a collision -/
+theorem step {H : Hash} {X Y : List Bytes} (a b : Bytes) (ha : a ∈ X) (hb : b ∈ Y) (h : H a = H b) :
+    a = b ∨ ExCollision H X Y := by
+  by_cases e : a = b
+  · exact Or.inl e
+  · exact Or.inr ⟨a, ha, b, hb, e, h⟩
+
+theorem hp_binding (H : Hash) (p q : Prop') (hp' : p.WF) (hq : q.WF) (h : Spec.hp H p = Spec.hp H q) :
+    p = q ∨ ExCollision H [hpPre H p, p.data] [hpPre H q, q.data] := by
+  rcases step (X := [hpPre H p, p.data]) (Y := [hpPre H q, q.data]) (hpPre H p) (hpPre H q) (by simp) (by simp) h with h0 | hc
+  · unfold hpPre at h0
+    simp only [List.append_assoc] at h0
+    obtain ⟨_, h1⟩ := List.append_inj h0 rfl
+    have lo := pad32_length p.origin (lt256_of_lt hp'.1 (by decide))
+    have lo' := pad32_length q.origin (lt256_of_lt hq.1 (by decide))
+    have ln := pad32_length p.nonce (lt256_of_lt hp'.2.1 (by decide))
+    have ln' := pad32_length q.nonce (lt256_of_lt hq.2.1 (by decide))
+    obtain ⟨ho, h2⟩ := List.append_inj h1 (by rw [lo, lo'])
+    obtain ⟨hn, h3⟩ := List.append_inj h2 (by rw [ln, ln'])
+    obtain ⟨hr, h4⟩ := List.append_inj h3 (by rw [hp'.2.2, hq.2.2])
+    rcases step (X := [hpPre H p, p.data]) (Y := [hpPre H q, q.data]) p.data q.data (by simp) (by simp) h4 with hd | hc
+    · left
+      have ho' := pad32_inj _ _ ho
+      have hn' := pad32_inj _ _ hn
+      cases p; cases q; simp_all
+    · exact Or.inr hc
+  · exact Or.inr hc
+
+theorem map_hp_binding (H : Hash) : ∀ (ps qs : List Prop'), (∀ p ∈ ps, p.WF) → (∀ q ∈ qs, q.WF) →
+    ps.map (Spec.hp H) = qs.map (Spec.hp H) → ps = qs ∨ ExCollision H (propPres H ps) (propPres H qs) := by
   intro ps
   induction ps with
   | nil => intro qs _ _ hm; cases qs <;> simp_all
@@ -123,9 +146,21 @@ theorem map_hp_inj (H : Hash) (hinj : ∀ a b, H a = H b → a = b) :
     | nil => simp at hm
     | cons q qs =>
       simp only [List.map_cons, List.cons.injEq] at hm
-      have hpq := hp_inj H hinj p q (hps p (by simp)) (hqs q (by simp)) hm.1
-      have := ih qs (fun a ha => hps a (by simp [ha])) (fun a ha => hqs a (by simp [ha])) hm.2
-      simp [hpq, this]
+      rcases hp_binding H p q (hps p (by simp)) (hqs q (by simp)) hm.1 with hpq | hc
+      · rcases ih qs (fun a ha => hps a (by simp [ha])) (fun a ha => hqs a (by simp [ha])) hm.2 with ht | hc
+        · left; rw [hpq, ht]
+        · right
+          exact exc_mono (by intro a ha; simp [propPres] at ha ⊢; exact Or.inr (Or.inr ha))
+            (by intro a ha; simp [propPres] at ha ⊢; exact Or.inr (Or.inr ha)) hc
+      · right
+        exact exc_mono (by intro a ha; simp [propPres] at ha ⊢; rcases ha with h | h <;> simp [h])
+          (by intro a ha; simp [propPres] at ha ⊢; rcases ha with h | h <;> simp [h]) hc
+
+theorem weakH_len (x : Bytes) : (weakH x).length = 32 := by simp [weakH]
+
+theorem weakH_prefix (u v : Bytes) (h : u.length = 32) : weakH (u ++ v) = u := by
+  simp [weakH, h]
+
 
 theorem lookup_swap {β : Type} (x y : String × β) (l : List (String × β)) (k : String) (hne : x.1 ≠ y.1) :
     (y :: x :: l).lookup k = (x :: y :: l).lookup k := by
@@ -178,9 +213,6 @@ end Helpers
 
 section Property
 
-/-- a hash collision, exhibited -/
-def Collision (H : Hash) : Prop := ∃ a b, a ≠ b ∧ H a = H b
-
 /-- the inputs the statement quantifies over -/
 structure BatchWF (chain : Nat) (addr : Bytes) (ps : List Prop') : Prop where
   chain : chain < 2 ^ 256
@@ -215,49 +247,60 @@ theorem pallet_eq_spec (H : Hash) (ps : List Prop') (chain : Nat) (hc : chain < 
   rw [e]
   exact model_eq_spec H ps chain palletContract _ ⟨lt256_of_lt hc (by decide), by decide, hp⟩ (by decide)
 
-/-- **C02-b (binding).** For an arbitrary hash function with 32-byte outputs: two well-formed
-    (chain id, contract address, ORDERED batch) triples with equal digests are equal, or `H` has a collision. -/
+/-- **C02-b (binding, as a reduction).** For an arbitrary hash function with 32-byte outputs: if two well-formed
+    (chain id, contract address, ORDERED batch) triples have the same digest, then they are equal — or two DIFFERENT byte
+    strings with the same hash are exhibited among the pre-images the two digest computations hand to `H`
+    (`hashedBy`: explicitly computable, at most 4 + 2·(batch length) strings per side). The proof never appeals to global
+    injectivity of `H`: at each hash application it compares the two pre-images (decidable) and either continues with
+    their equality or returns them as the collision.
+    Hypotheses restricting the quantifier: `BatchWF` (chain id < 2^256, 20-byte address, origin < 2^8, nonce < 2^64,
+    32-byte resource id) on both sides; the same version string on both sides; `H` has 32-byte outputs. -/
 theorem digest_binding (H : Hash) (hlen : ∀ x, (H x).length = 32) (ver : String)
     (c c' : Nat) (a a' : Bytes) (ps ps' : List Prop') (hx : BatchWF c a ps) (hy : BatchWF c' a' ps')
     (h : Spec.digestV H ver c a ps = Spec.digestV H ver c' a' ps') :
-    (c = c' ∧ a = a' ∧ ps = ps') ∨ Collision H := by
-  by_cases hinj : ∀ a b, H a = H b → a = b
-  · left
-    unfold Spec.digestV at h
-    have h0 := hinj _ _ h
+    (c = c' ∧ a = a' ∧ ps = ps') ∨ ExCollision H (hashedBy H ver c a ps) (hashedBy H ver c' a' ps') := by
+  have mX : ∀ z ∈ propPres H ps, z ∈ hashedBy H ver c a ps := by intro z hz; simp [hashedBy, hz]
+  have mY : ∀ z ∈ propPres H ps', z ∈ hashedBy H ver c' a' ps' := by intro z hz; simp [hashedBy, hz]
+  rcases step (X := hashedBy H ver c a ps) (Y := hashedBy H ver c' a' ps') (topPre H ver c a ps) (topPre H ver c' a' ps')
+    (by simp [hashedBy]) (by simp [hashedBy]) h with h0 | hc
+  · unfold topPre at h0
     simp only [List.cons_append, List.nil_append, List.cons.injEq, true_and] at h0
     obtain ⟨hds, hsh⟩ := List.append_inj h0 (by simp [Spec.domSep, hlen])
-    -- domain separator
-    unfold Spec.domSep at hds
-    have d0 := hinj _ _ hds
-    simp only [List.append_assoc] at d0
-    obtain ⟨_, d1⟩ := List.append_inj d0 rfl
-    obtain ⟨_, d2⟩ := List.append_inj d1 rfl
-    obtain ⟨_, d3⟩ := List.append_inj d2 rfl
-    obtain ⟨dc, da⟩ := List.append_inj d3 (by rw [pad32_length c hx.chain, pad32_length c' hy.chain])
-    have hc := pad32_inj _ _ dc
-    have ha := List.append_cancel_left da
-    -- struct hash
-    unfold Spec.structHash at hsh
-    have s0 := hinj _ _ hsh
-    obtain ⟨_, s1⟩ := List.append_inj s0 rfl
-    have s2 := hinj _ _ s1
-    have s3 := flatten_inj32 _ _
-      (by intro a ha; simp at ha; obtain ⟨p, _, rfl⟩ := ha; simp [Spec.hp, hlen])
-      (by intro a ha; simp at ha; obtain ⟨p, _, rfl⟩ := ha; simp [Spec.hp, hlen]) s2
-    exact ⟨hc, ha, map_hp_inj H hinj _ _ hx.props hy.props s3⟩
-  · right
-    have ⟨a, ha⟩ := Classical.not_forall.mp hinj
-    have ⟨b, hb⟩ := Classical.not_forall.mp ha
-    have ⟨h1, h2⟩ := Classical.not_imp.mp hb
-    exact ⟨a, b, h2, h1⟩
+    rcases step (X := hashedBy H ver c a ps) (Y := hashedBy H ver c' a' ps') (domPre H ver c a) (domPre H ver c' a')
+      (by simp [hashedBy]) (by simp [hashedBy]) hds with d0 | hc
+    · unfold domPre at d0
+      simp only [List.append_assoc] at d0
+      obtain ⟨_, d1⟩ := List.append_inj d0 rfl
+      obtain ⟨_, d2⟩ := List.append_inj d1 rfl
+      obtain ⟨_, d3⟩ := List.append_inj d2 rfl
+      obtain ⟨dc, da⟩ := List.append_inj d3 (by rw [pad32_length c hx.chain, pad32_length c' hy.chain])
+      have hc := pad32_inj _ _ dc
+      have ha := List.append_cancel_left da
+      rcases step (X := hashedBy H ver c a ps) (Y := hashedBy H ver c' a' ps') (structPre H ps) (structPre H ps')
+        (by simp [hashedBy]) (by simp [hashedBy]) hsh with s0 | hcol
+      · unfold structPre at s0
+        obtain ⟨_, s1⟩ := List.append_inj s0 rfl
+        rcases step (X := hashedBy H ver c a ps) (Y := hashedBy H ver c' a' ps') (arrPre H ps) (arrPre H ps')
+          (by simp [hashedBy]) (by simp [hashedBy]) s1 with s2 | hcol
+        · have s3 := flatten_inj32 _ _
+            (by intro a ha; simp at ha; obtain ⟨p, _, rfl⟩ := ha; simp [Spec.hp, hlen])
+            (by intro a ha; simp at ha; obtain ⟨p, _, rfl⟩ := ha; simp [Spec.hp, hlen]) s2
+          rcases map_hp_binding H ps ps' hx.props hy.props s3 with e | hcol
+          · exact Or.inl ⟨hc, ha, e⟩
+          · exact Or.inr (exc_mono mX mY hcol)
+        · exact Or.inr hcol
+      · exact Or.inr hcol
+    · exact Or.inr hc
+  · exact Or.inr hc
+
 
 /-- any change — a field of any proposal, the order, the number of proposals, the chain id, the contract address —
-    changes the digest, unless it exhibits a collision of `H` -/
+    changes the digest, unless it exhibits a collision of `H` among the pre-images of the two computations -/
 theorem digest_changes (H : Hash) (hlen : ∀ x, (H x).length = 32) (ver : String)
     (c c' : Nat) (a a' : Bytes) (ps ps' : List Prop') (hx : BatchWF c a ps) (hy : BatchWF c' a' ps')
     (hne : c ≠ c' ∨ a ≠ a' ∨ ps ≠ ps') :
-    Spec.digestV H ver c a ps ≠ Spec.digestV H ver c' a' ps' ∨ Collision H := by
+    Spec.digestV H ver c a ps ≠ Spec.digestV H ver c' a' ps' ∨
+      ExCollision H (hashedBy H ver c a ps) (hashedBy H ver c' a' ps') := by
   by_cases h : Spec.digestV H ver c a ps = Spec.digestV H ver c' a' ps'
   · rcases digest_binding H hlen ver c c' a a' ps ps' hx hy h with ⟨h1, h2, h3⟩ | hc
     · rcases hne with e | e | e
@@ -270,17 +313,37 @@ theorem digest_changes (H : Hash) (hlen : ∀ x, (H x).length = 32) (ver : Strin
 /-- in particular: swapping two different proposals changes the digest (order is committed to) -/
 theorem swap_changes_digest (H : Hash) (hlen : ∀ x, (H x).length = 32) (ver : String) (c : Nat) (a : Bytes)
     (p q : Prop') (hp : p.WF) (hq : q.WF) (hc : c < 2 ^ 256) (ha : a.length = 20) (hne : p ≠ q) :
-    Spec.digestV H ver c a [p, q] ≠ Spec.digestV H ver c a [q, p] ∨ Collision H := by
+    Spec.digestV H ver c a [p, q] ≠ Spec.digestV H ver c a [q, p] ∨
+      ExCollision H (hashedBy H ver c a [p, q]) (hashedBy H ver c a [q, p]) := by
   apply digest_changes H hlen ver c c a a [p, q] [q, p]
   · exact ⟨hc, ha, by intro x hx; simp at hx; rcases hx with rfl | rfl <;> assumption⟩
   · exact ⟨hc, ha, by intro x hx; simp at hx; rcases hx with rfl | rfl <;> assumption⟩
   · right; right; intro e; simp at e; exact hne e.1
 
-/-- the binding theorem for the executable Keccak-256 the driver runs (its output length is proved, nothing else about it) -/
+/-- the binding theorem for the executable Keccak-256 the driver runs (its output length is proved, nothing else about
+    it): equal digests of different inputs hand you two different byte strings with the same Keccak-256 -/
 theorem keccak_binding (c c' : Nat) (a a' : Bytes) (ps ps' : List Prop') (hx : BatchWF c a ps) (hy : BatchWF c' a' ps')
     (h : Spec.digest Keccak.keccak256 c a ps = Spec.digest Keccak.keccak256 c' a' ps') :
-    (c = c' ∧ a = a' ∧ ps = ps') ∨ Collision Keccak.keccak256 :=
+    (c = c' ∧ a = a' ∧ ps = ps') ∨
+      ExCollision Keccak.keccak256 (hashedBy Keccak.keccak256 Spec.version c a ps) (hashedBy Keccak.keccak256 Spec.version c' a' ps') :=
   digest_binding _ Keccak.keccak256_length _ c c' a a' ps ps' hx hy h
+
+/-- non-vacuity of the collision disjunct: under the weak hash `weakH` (32-byte truncation) chain ids 1 and 2 give the
+    same digest, and the theorem hands over a real collision (two different pre-images with the same `weakH`) -/
+example :
+    Spec.digestV weakH Spec.version 1 (List.replicate 20 7) [] = Spec.digestV weakH Spec.version 2 (List.replicate 20 7) [] ∧
+    ExCollision weakH (hashedBy weakH Spec.version 1 (List.replicate 20 7) []) (hashedBy weakH Spec.version 2 (List.replicate 20 7) []) := by
+  have hd : ∀ c, Spec.domSep weakH Spec.version c (List.replicate 20 7) = weakH (strBytes Spec.typeDomain) := by
+    intro c
+    unfold Spec.domSep
+    simp only [List.append_assoc]
+    exact weakH_prefix _ _ (weakH_len _)
+  have he : Spec.digestV weakH Spec.version 1 (List.replicate 20 7) [] = Spec.digestV weakH Spec.version 2 (List.replicate 20 7) [] := by
+    unfold Spec.digestV; rw [hd 1, hd 2]
+  refine ⟨he, ?_⟩
+  rcases digest_binding weakH weakH_len Spec.version 1 2 _ _ [] [] ⟨by decide, by decide, by simp⟩ ⟨by decide, by decide, by simp⟩ he with ⟨h, _⟩ | h
+  · exact absurd h (by decide)
+  · exact h
 
 /-- **C02-c (identical on every relayer).** The digest is a function of (batch, chain id, address, version) only; the one
     place where Go could introduce non-determinism — iteration order of the `map[string]interface{}` holding a proposal's
